@@ -242,10 +242,21 @@ class ProbabilisticNode(Node):
             Removes the next states that have
             zero probability of reaching the final states.
         """
+        # collect the surviving states first and rebuild the list once: removing from
+        # the list while scanning it skips the element after each removed one, and
+        # a second removal no longer finds its (already rescaled) tuple
+        removed_probability = 0
+        kept_states = []
         for _next_state in self.next_states:
             next_state = state_list[_next_state[NEXT_STATE_IDX]]
             if next_state.reach_probability == 0:
-                self.remove_path(_next_state)
+                removed_probability += _next_state[PROBABILITY]
+            else:
+                kept_states.append(_next_state)
+        if len(kept_states) != len(self.next_states):
+            self.next_states = [
+                (probability / (1 - removed_probability), next_state_idx)
+                for probability, next_state_idx in kept_states]
 
     def remove_path(self, state_to_remove):
         """
@@ -325,10 +336,9 @@ class PlayerOne(Node):
             Removes the next states that have zero probability of reaching
             the final states.
         """
-        for _next_state in self.next_states:
-            next_state = state_list[_next_state[NEXT_STATE_IDX]]
-            if next_state.reach_probability == 0:
-                self.remove_path(_next_state)
+        self.next_states = [
+            _next_state for _next_state in self.next_states
+            if state_list[_next_state[NEXT_STATE_IDX]].reach_probability != 0]
 
     def remove_path(self, state_to_remove):
         """ 
